@@ -152,6 +152,11 @@ fn buffered_exec(out: &mut Out, ex: &[Value]) {
                     None
                 }
                 "is_exhausted" => Some(b.is_exhausted() as i32),
+                "clone" => {
+                    // continue with the clone (the instrumented source shares its pull counter with it)
+                    b = b.clone();
+                    Some(0)
+                }
                 _ => panic!("unknown op"),
             })
         });
@@ -253,7 +258,8 @@ fn gen(seed: u64, size: &str, path: &str) {
         let mut ex = vec![json!({"ev":"reset","comp":"buffered","cfg":{"cap":cap,"start":start,"len":len,"data":data,"srclen":srclen}})];
         for _ in 0..rng.range(10, if thorough { 300 } else { 120 }) {
             let k = rng.below(10);
-            ex.push(if k < 5 { json!({"ev":"next","a":{"x":0}}) }
+            ex.push(if rng.chance(1, 20) { json!({"ev":"clone","a":{"x":0}}) }
+                    else if k < 5 { json!({"ev":"next","a":{"x":0}}) }
                     else if k < 9 { json!({"ev":"next_frames","a":{"k": rng.below(cap as u64 + 3)}}) }
                     else { json!({"ev":"is_exhausted","a":{"x":0}}) });
         }
